@@ -707,20 +707,32 @@ def _r9(ctx, pkg):
     ctx.saw(NETF, "Network.species")
     fl = Flow(fn, NETF)
     rets = [f for f in fl.facts if f.kind == "return"]
-    ok = False
-    found = ""
-    if len(rets) == 1:
-        v = simp(rets[0].value)
-        found = show(v)[:160]
-        if v[0] == "call" and v[1] == ("global", "sorted") and dict(v[3]).get("key") is not None:
-            ksrc = None
-            for n in ast.walk(fn):
-                if isinstance(n, ast.Lambda):
-                    ksrc = n
-            if ksrc is not None and isinstance(ksrc.body, ast.Tuple):
-                arg = ksrc.args.args[0].arg
-                last = ast.unparse(ksrc.body.elts[-1])
-                ok = last in (arg, f"{arg}.name")
+    found = "; ".join(show(simp(f.value))[:100] for f in rets)
+
+    def unwrap(v):
+        while v[0] == "call" and v[1] in (("global", "list"), ("global", "tuple")) and len(v[2]) == 1:
+            v = v[2][0]
+        while v[0] == "meth" and v[2] == "copy" and not v[3]:
+            v = v[1]
+        return v
+
+    def total(v):
+        """sorted(.., key=lambda x: (.., x))"""
+        if not (v[0] == "call" and v[1] == ("global", "sorted") and dict(v[3]).get("key") is not None):
+            return False
+        lams = [n for n in ast.walk(fn) if isinstance(n, ast.Lambda)]
+        if len(lams) != 1 or not isinstance(lams[0].body, ast.Tuple):
+            return False
+        arg = lams[0].args.args[0].arg
+        return ast.unparse(lams[0].body.elts[-1]) in (arg, f"{arg}.name")
+    # a memo (self._x) may stand between the computation and the return: it must hold the totally ordered list
+    memo = {f.target: unwrap(simp(f.value)) for f in fl.facts if f.kind == "attrstore"}
+    ok = bool(rets)
+    for f in rets:
+        v = unwrap(simp(f.value))
+        if v[0] == "attr" and v[1] == SELF and v[2] in memo:
+            v = memo[v[2]]
+        ok = ok and total(v)
     ctx.check(ok, "R9", "Network.species:total order", (NETF, fn.lineno),
               "species are ordered by sorted(.., key=(connectivity, species)): ties are broken by the species' own order, so the order does not depend on set iteration" if ok else
               "the species order is not a total order (no tie-break by the species itself): slots depend on set iteration order, which varies with the hash seed -- "
